@@ -74,6 +74,7 @@ def main(ctx):
                                      "tier": menus, "illegal_kinds": 2 if tier == "thorough" else 1})
     for auth in (0, 1):
         jobs.append({"kind": "burst", "auth": auth, "mode": 0, "depth": 2, "tier": "quick"})
+    jobs.append({"kind": "rejoin"})
     for fw in ("tx", "aio"):
         ctx.pmap({"fw": fw, "nvx": "1"}, "props.c06:job", jobs, chunksize=4)
     c = ctx.counters
@@ -94,7 +95,7 @@ def main(ctx):
             "two_challenge_rounds", "pending_failed_by_goodbye", "pending_failed_by_loss",
             "api_after_end_checked", "late_requests_checked", "onleave_after_failed_challenge",
             "executions_full_depth", "nontrivial", "burst_execs", "burst:WELCOME+GOODBYE",
-            "burst:CHALLENGE+ABORT", "burst:WELCOME+lose"]
+            "burst:CHALLENGE+ABORT", "burst:WELCOME+lose", "rejoin_execs"]
     if tier == "thorough":
         need += ["beh:onWelcome:pending", "beh:onChallenge:pending", "beh:onJoin:pending",
                  "beh:onLeave:pending", "ev:done"]
@@ -644,7 +645,90 @@ def run_exec(ch, a, stats, states):
     return ex
 
 
+def _job_rejoin(a):
+    """several sessions over ONE transport: the first session ends (locally initiated leave answered
+    by the router, or router GOODBYE answered by us), the user's onLeave keeps the transport, the
+    user joins again; the per-session GOODBYE rules must hold in every session: GOODBYE sent at
+    most once per session, a router GOODBYE answered exactly when this side did not initiate,
+    leave() of a joined session sends GOODBYE, callbacks once per session in order"""
+    import itertools
+    from mc import worker
+    from harness import wamp_l1 as H
+    from autobahn.wamp import message as M
+    from autobahn.wamp import role
+    env = worker.ENV
+    viol = []
+    n = 0
+    seen = {}
+
+    def bad(clause, detail):
+        sig = "C06|rejoin-%s" % clause
+        seen[sig] = seen.get(sig, 0) + 1
+        if seen[sig] <= 2:
+            viol.append({"sig": sig, "desc": "[fw=%s] %s" % (env.get("fw"), detail),
+                         "replay": {"env": {"fw": env.get("fw"), "nvx": "1"}, "func": "props.c06:job",
+                                    "arg": a}})
+    ends = ("local-leave", "router-goodbye")
+    for seq in itertools.product(ends, repeat=3):
+        l1 = H.L1(behave=lambda name: "keep" if name == "onLeave" else "return")
+        s, tr = l1.session, l1.transport
+        l1.join()
+        for i, how in enumerate(seq):
+            tag = "session %d of %s" % (i + 1, list(seq))
+            if i > 0:
+                # join again over the same transport
+                n0 = len(tr.sent)
+                r = l1.api(s.join, "realm1")
+                l1.settle()
+                new = [type(m).__name__ for m in tr.sent[n0:]]
+                if r[0] == "raise" or new != ["Hello"]:
+                    bad("join-again", "%s: join() -> %r, sent %s" % (tag, r, new))
+                    break
+                l1.deliver(M.Welcome(1000 + i, {"broker": role.RoleBrokerFeatures(),
+                                                "dealer": role.RoleDealerFeatures()}))
+                l1.settle()
+            if s._session_id is None:
+                bad("not-joined", "%s: no session id after WELCOME" % tag)
+                break
+            n0 = len(tr.sent)
+            r0 = len(s.rec)
+            if how == "local-leave":
+                r = l1.api(s.leave)
+                l1.settle()
+                sent = [type(m).__name__ for m in tr.sent[n0:]]
+                if r[0] == "raise" or sent != ["Goodbye"]:
+                    bad("leave-sends-no-goodbye", "%s: leave() -> %r, sent %s" % (tag, r[:1], sent))
+                    break
+                n1 = len(tr.sent)
+                exc = l1.deliver(M.Goodbye("wamp.close.goodbye_and_out"))
+                l1.settle()
+                sent = [type(m).__name__ for m in tr.sent[n1:]]
+                if exc is not None or sent:
+                    bad("goodbye-reply-handling", "%s: reply to our GOODBYE -> exc=%r sent %s" % (tag, exc, sent))
+                    break
+            else:
+                exc = l1.deliver(M.Goodbye("wamp.close.system_shutdown"))
+                l1.settle()
+                sent = [type(m).__name__ for m in tr.sent[n0:]]
+                if exc is not None or sent != ["Goodbye"]:
+                    bad("router-goodbye-not-answered", "%s: router GOODBYE -> exc=%r, we sent %s "
+                        "(must answer exactly once: this side did not initiate)" % (tag, exc, sent))
+                    break
+            cbs = [x[0] for x in s.rec[r0:] if x[0] in ("onJoin", "onLeave", "onDisconnect", "onConnect")]
+            if cbs != ["onLeave"]:
+                bad("callbacks", "%s: callbacks at session end %s, expected ['onLeave']" % (tag, cbs))
+                break
+            if s._session_id is not None:
+                bad("still-joined", "%s: session id still set after the GOODBYE exchange" % tag)
+                break
+        n += 1
+    return {"evals": n, "viol": viol, "stats": {"rejoin_execs": n, "nontrivial": n, "execs": n},
+            "samples": [{"kind": "rejoin", "sequences": n}]}
+
+
 def job(a):
+    if a.get("kind") == "rejoin":
+        return _job_rejoin(a)
     import collections
     from mc import worker
     from mc.core import explore
